@@ -1,8 +1,38 @@
 (* C03 — level-triggered cancellation: nothing stays blocked in a cancelled scope.
-   This file contains only statements closed by `exact` and their Print Assumptions. *)
-From AV Require Import Base Machine ScopeFrames DeliverInv.
+   This file contains only statements closed by `exact` and their Print Assumptions.
+   reach_ok s = s is reached from init by an op list of the generated domain (TreeStep.op_ok: AEnter/AExit only
+   on allocated scopes that are neither a task group's own scope nor a task handle's scope, AGroupEnter on
+   allocated groups, AFinish only at the task's base scope, ARun (HWake t f) only for f = the task's waiter). *)
+From AV Require Import Base Machine ScopeFrames DeliverInv TreeInv DeliverAlive TreeStep DeliverThms.
 
-Theorem C03_deliver_cancels_reach : forall s c, wait_link s ->
+(* I4: a cancelled, hosted scope that some live task still reaches (walk from the task's current scope up the
+   parent links through scopes that are neither shielded nor cancelled) has its delivery callback scheduled *)
+Theorem C03_delivery_alive : forall s c,
+  reach_ok s -> s_cancelled (scopes s c) = true -> s_host (scopes s c) <> None ->
+  (exists t, reaches s t c) ->
+  s_chandle (scopes s c) = true /\ In (HDeliver c) (ready s).
+Proof. exact delivery_alive. Qed.
+Print Assumptions C03_delivery_alive.
+
+(* the structural invariant behind it (I1 tree, I2 stack) holds in every reachable state of the domain *)
+Theorem C03_tree_invariant : forall s, reach_ok s -> Tree s.
+Proof. exact reach_tree. Qed.
+Print Assumptions C03_tree_invariant.
+
+(* running the scheduled callback in a reachable state: every reached task that can take a request gets one
+   carrying the scope as origin, and the callback is re-scheduled iff somebody is still reached *)
+Theorem C03_deliver_cancels_reach : forall s c,
+  reach_ok s -> wait_link s -> In (HDeliver c) (ready s) ->
+  let s' := fst (step s (ARun (HDeliver c))) in
+  (forall t, reaches s t c -> takes_request s t -> requested s' t (S c)) /\
+  ((exists t, reaches s t c) -> s_chandle (scopes s' c) = true /\ In (HDeliver c) (ready s')) /\
+  (~ (exists t, reaches s t c) -> s_chandle (scopes s' c) = false) /\
+  (forall c', c' <> c -> scopes s' c' = scopes s c').
+Proof. exact deliver_cancels_reach. Qed.
+Print Assumptions C03_deliver_cancels_reach.
+
+(* the same on the recursion itself (any state): walk = dreach on the children/tasks lists *)
+Theorem C03_deliver_top_spec : forall s c, wait_link s ->
   let s' := deliver_top s c in
   kframe s s' /\
   (forall c', c' <> c -> scopes s' c' = scopes s c') /\
@@ -12,4 +42,52 @@ Theorem C03_deliver_cancels_reach : forall s c, wait_link s ->
   (~ (exists x t, dreach s (S (nscope s)) c x t /\ k_done (tasks s t) = None) ->
      s_chandle (scopes s' c) = false).
 Proof. exact deliver_top_spec. Qed.
-Print Assumptions C03_deliver_cancels_reach.
+Print Assumptions C03_deliver_top_spec.
+
+(* K: the request is what the task receives at its next step ... *)
+Theorem C03_cancelled_request_is_delivered : forall s t o,
+  requested s t o -> snd (incoming s t (k_waiter (tasks s t))) = Some (ECancel o).
+Proof. exact cancelled_request_is_delivered. Qed.
+Print Assumptions C03_cancelled_request_is_delivered.
+
+(* ... and a plain wait (checkpoint, checkpoint_if_cancelled spin, sleep, handle.wait) raises it *)
+Theorem C03_cancelled_wait_raises : forall s t o,
+  requested s t o ->
+  match k_ctl (tasks s t) with
+  | CYield YCheckpoint | CYield YCkIf | CSleep _ _ | CHandleWait _ _ => True
+  | _ => False
+  end ->
+  snd (resume s t (k_waiter (tasks s t))) = RExc (ECancel o).
+Proof. exact cancelled_wait_raises. Qed.
+Print Assumptions C03_cancelled_wait_raises.
+
+(* corner cases of one delivery step: the task is skipped and the delivery asks to be re-run *)
+Theorem C03_corner_running : forall self o a r t,
+  running a = Some t -> k_done (tasks a t) = None -> deliver_task self o (a, r) t = (a, true).
+Proof. exact corner_running. Qed.
+Print Assumptions C03_corner_running.
+
+Theorem C03_corner_not_started : forall self o a r t,
+  k_started (tasks a t) = false -> s_host (scopes a self) <> Some t -> k_done (tasks a t) = None ->
+  deliver_task self o (a, r) t = (a, true).
+Proof. exact corner_not_started. Qed.
+Print Assumptions C03_corner_not_started.
+
+Theorem C03_corner_about_to_resume : forall self o a r t f,
+  k_waiter (tasks a t) = Some f -> f_st (futs a f) <> FPend -> k_done (tasks a t) = None ->
+  deliver_task self o (a, r) t = (a, true).
+Proof. exact corner_about_to_resume. Qed.
+Print Assumptions C03_corner_about_to_resume.
+
+Theorem C03_cancelled_before_entry_delivers : forall s c t,
+  s_active (scopes s c) = false -> s_cancelled (scopes s c) = true -> k_cur (tasks s t) <> Some c ->
+  fst (scope_enter s c t) = deliver_top (enter_s5 s c t) c.
+Proof. exact cancelled_before_entry_delivers. Qed.
+Print Assumptions C03_cancelled_before_entry_delivers.
+
+Theorem C03_exit_restarts_parent : forall s c t exc,
+  s_active (scopes s c) = true -> s_host (scopes s c) = Some t -> k_cur (tasks s t) = Some c ->
+  exists s6, kframe (restart (exit_struct s c t) (s_parent (scopes s c))) s6 /\
+             fst (scope_exit s c t exc) = upd_scope s6 c (sc_host None).
+Proof. exact exit_restarts_parent. Qed.
+Print Assumptions C03_exit_restarts_parent.
